@@ -12,7 +12,9 @@ against the natively compiled assembler, decoded again and disassembled with llv
 only a reproduced mismatch is reported.
 
 Environment: VERIF_JOBS (parallel CBMC processes, default 16), VERIF_MEM_GB (address space
-cap per process, default 12), VERIF_ASM_SRC (dora-asm crate to check, default /repo/dora-asm).
+cap per process, default 12), VERIF_ASM_SRC (dora-asm crate to check, default /repo/dora-asm),
+C07_ONLY_METHODS=a,b (development: partial run, flagged in the evidence), C07_CACHE=1 (development:
+content-addressed reuse of per-harness results; off by default).
 """
 import concurrent.futures
 import importlib.util
@@ -86,8 +88,8 @@ def _limit_cex():
 def content_hash(crate, asm_src):
     """Hash of everything a harness verdict depends on: the generated crate (harnesses, decoder,
     comparison, Cargo.toml/lock), the dora-asm sources it is compiled against, the Kani/CBMC
-    versions and the flags.  Results are reused only under an identical hash (content-addressed;
-    `C07_NO_CACHE=1` disables it); nothing else is carried from one run to the next."""
+    versions and the flags.  OFF by default; with `C07_CACHE=1` (development aid) a result is
+    stored / reused under an identical hash only; nothing else is carried from one run to the next."""
     import hashlib
     h = hashlib.sha256()
     files = []
@@ -613,7 +615,8 @@ def main(tier):
             shutil.rmtree(TARGET, ignore_errors=True)
         binary = native_build(CRATE)
         os.makedirs(CACHE, exist_ok=True)
-        use_cache = os.environ.get("C07_NO_CACHE") != "1"
+        # opt-in only: a registered run decides every harness afresh from the working tree
+        use_cache = os.environ.get("C07_CACHE") == "1"
         base = content_hash(CRATE, manifest["asm_src"])
         cached = {}
         if use_cache:
